@@ -702,3 +702,107 @@ package raft
 //@   requires l.file != nil ==> logRI(l)
 //@   ensures [found] l.file != nil && absContains(l, index) ==> err == nil && result0 != nil && result0 == l.entries[index - absFirst(l)] && result0.Index == index
 //@   ensures [missing] l.file == nil || !absContains(l, index) ==> err != nil && result0 == nil
+
+// Thin ghost model of files for the bundled storages: per handle f, fPos[f] is its position and
+// fSynced[f] tells whether everything written through it has been fsynced.
+//@ ghost fPos map[int]int
+//@ ghost fSynced map[int]bool
+//@ ghost fClosed map[int]bool
+// tornTail: the bytes after the last complete record on disk are a strict, non-empty prefix of one
+// record (what a crash in the middle of an append leaves behind).
+//@ ghost tornTail bool
+//@ threadlocal g.tornTail
+
+//@ extern os.File.Seek(offset, whence) (pos, err)
+//@   modifies fPos
+//@   ensures ioOK ==> err == nil
+//@   ensures err == nil && whence == 1 && offset == 0 ==> pos == old(fPos[self]) && fPos[self] == old(fPos[self])
+//@   ensures err == nil && whence == 0 ==> pos == offset && fPos[self] == offset
+//@   ensures err == nil ==> pos >= 0
+//@   ensures forall g int :: g != self ==> fPos[g] == old(fPos[g])
+//@ extern os.File.Sync() (err)
+//@   modifies fSynced
+//@   ensures ioOK ==> err == nil
+//@   ensures err == nil ==> fSynced[self]
+//@   ensures forall g int :: g != self ==> fSynced[g] == old(fSynced[g])
+//@ extern os.File.Close() (err)
+//@   modifies fClosed
+//@   ensures ioOK ==> err == nil
+//@   ensures err == nil ==> fClosed[self]
+//@   ensures forall g int :: g != self ==> fClosed[g] == old(fClosed[g])
+//@ extern os.File.Truncate(size) (err)
+//@   modifies fSynced
+//@   ensures ioOK ==> err == nil
+//@   ensures !fSynced[self]
+//@   ensures forall g int :: g != self ==> fSynced[g] == old(fSynced[g])
+//@ extern os.File.Name() (name)
+//@ extern os.CreateTemp(dir, pattern) (f, err)
+//@   modifies fPos, fSynced, fClosed
+//@   ensures ioOK ==> err == nil
+//@   ensures err == nil ==> f != nil && fresh(f) && fPos[f] == 0 && !fClosed[f]
+//@   ensures forall g int :: g != f ==> fPos[g] == old(fPos[g]) && fSynced[g] == old(fSynced[g]) && fClosed[g] == old(fClosed[g])
+//@ extern os.OpenFile(name, flag, perm) (f, err)
+//@   modifies fPos, fSynced, fClosed
+//@   ensures ioOK ==> err == nil
+//@   ensures err == nil ==> f != nil && fresh(f) && fPos[f] == 0 && !fClosed[f]
+//@   ensures forall g int :: g != f ==> fPos[g] == old(fPos[g]) && fSynced[g] == old(fSynced[g]) && fClosed[g] == old(fClosed[g])
+//@ extern os.Rename(oldpath, newpath) (err)
+//@   ensures ioOK ==> err == nil
+//@ extern os.Remove(name) (err)
+//@ extern os.RemoveAll(path) (err)
+
+// encodeLogEntry writes one record (4-byte length + protobuf of all five fields, incl. Offset) at
+// the writer's position. Trusted: protobuf/binary encoding.
+//@ func encodeLogEntry
+//@   flags trusted
+//@   modifies fPos, fSynced
+//@   ensures ioOK ==> err == nil
+//@   ensures err == nil ==> fPos[w] > old(fPos[w]) + 4
+//@   ensures !fSynced[w]
+//@   ensures forall g int :: g != w ==> fPos[g] == old(fPos[g]) && fSynced[g] == old(fSynced[g])
+// decodeLogEntry reads the next record; io.EOF exactly at a clean end, any other error for a torn
+// record (header 1-3 bytes, or body shorter than announced) - except the header-only tail, see F5.
+//@ func decodeLogEntry
+//@   flags trusted
+//@   ensures tornTail ==> (err == nil || !iserr(err, ioEOF))
+
+//@ func persistentLog.AppendEntries
+//@   requires l.file != nil ==> logRI(l)
+//@   requires forall j int :: 0 <= j && j < len(entries) ==> entries[j] != nil
+//@   ensures [closed] old(l.file) == nil ==> err != nil && l.entries == old(l.entries)
+//@   ensures [appended] err == nil ==> len(l.entries) == old(len(l.entries)) + len(entries) && (forall k int :: 0 <= k && k < old(len(l.entries)) ==> l.entries[k] == old(l.entries[k])) && (forall j int :: 0 <= j && j < len(entries) ==> l.entries[old(len(l.entries)) + j] == entries[j])
+//@   ensures [error-frame] err != nil ==> l.entries == old(l.entries)
+//@   at call encodeLogEntry assert [offset-current] entry.Offset == fPos[l.file] && w == l.file
+//@   at before-assign l.entries assert [sync-before-publish] fSynced[l.file]
+
+//@ func persistentLog.AppendEntry
+//@   flags inline
+
+//@ func persistentLog.Truncate
+//@   requires l.file != nil ==> logRI(l)
+//@   ensures [spec] err == nil ==> old(absContains(l, index)) && len(l.entries) == index - old(absFirst(l)) && forall k int :: 0 <= k && k < len(l.entries) ==> l.entries[k] == old(l.entries[k])
+//@   ensures [missing] old(l.file) != nil && !old(absContains(l, index)) ==> err != nil
+//@   ensures [error-frame] err != nil ==> l.entries == old(l.entries)
+//@   ensures [ri] err == nil ==> logRI(l)
+//@   at call l.file.Truncate assert [truncate-at-record] arg0 == l.entries[index - absFirst(l)].Offset
+//@   at before-assign l.entries assert [sync-before-publish] fSynced[l.file] && fPos[l.file] == l.entries[index - absFirst(l)].Offset
+
+//@ func persistentLog.Compact
+//@   requires l.file != nil ==> logRI(l)
+//@   ensures [spec] err == nil ==> old(absContains(l, index)) && len(l.entries) == old(len(l.entries)) - (index - old(absFirst(l))) && forall k int :: 0 <= k && k < len(l.entries) ==> l.entries[k] == old(l.entries[k + (index - absFirst(l))])
+//@   ensures [missing] old(l.file) != nil && !old(absContains(l, index)) ==> err != nil
+//@   ensures [error-frame] err != nil ==> l.entries == old(l.entries)
+//@   at call encodeLogEntry assert [offset-current] entry.Offset == fPos[tmpFile] && w == tmpFile
+//@   loop range newEntries invariant [tmp] tmpFile != nil
+
+//@ func persistentLog.DiscardEntries
+//@   ensures [spec] err == nil ==> len(l.entries) == 1 && l.entries[0] != nil && l.entries[0].Index == index && l.entries[0].Term == term && l.entries[0].Offset == 0
+//@   ensures [error-frame] err != nil ==> l.entries == old(l.entries)
+//@   at call encodeLogEntry assert [offset-current] entry.Offset == fPos[tmpFile] && w == tmpFile
+
+//@ func persistentLog.rename
+//@   at call os.Rename assert [synced-closed-before-rename] fSynced[tmpFile] && fClosed[tmpFile] && fClosed[l.file]
+
+//@ func persistentLog.Replay
+//@   requires l.file != nil
+//@   ensures [torn-tail] tornTail && ioOK ==> err == nil
